@@ -1,6 +1,7 @@
 package sstable
 
 import (
+	"bytes"
 	"encoding/binary"
 	"fmt"
 	"sync"
@@ -105,15 +106,22 @@ func (it *Iterator) Seek(target []byte) bool {
 	it.initialized = true
 
 	// Find the block that might contain the key
-	// The index contains the first key of each block
-	if !it.indexIterator.Seek(target) {
-		// If seeking in the index fails, try the last block
-		it.indexIterator.SeekToLast()
-		if !it.indexIterator.Valid() {
-			// No blocks in the SSTable
-			it.resetBlockIterator()
-			return false
-		}
+	// The index contains the FIRST key of each block, so this is the last block
+	// whose first key is <= target (the first block if the target precedes all keys)
+	it.indexIterator.SeekToFirst()
+	if !it.indexIterator.Valid() {
+		// No blocks in the SSTable
+		it.resetBlockIterator()
+		return false
+	}
+	candidates := 0
+	for it.indexIterator.Valid() && bytes.Compare(it.indexIterator.Key(), target) <= 0 {
+		candidates++
+		it.indexIterator.Next()
+	}
+	it.indexIterator.SeekToFirst()
+	for i := 1; i < candidates; i++ {
+		it.indexIterator.Next()
 	}
 
 	// Load the data block at the current index position
